@@ -126,6 +126,10 @@ type spec struct {
 	Exit     string
 	ExitAt   int
 	Sides    []side
+	// Writer: what a SQLite writer has left on disk before the call starts:
+	// "" nothing, "open-txn" an open transaction with its journal (RESERVED
+	// held), "hot-journal" the journal of a crashed transaction
+	Writer string `json:",omitempty"`
 }
 
 var ops = []string{"Select", "SelectDone", "SelectRowid", "IndexedSelect", "IndexedSelectEq", "PKSelect", "PKSelect-wr", "Columns", "Select-wr", "IndexedSelect-wr"}
@@ -145,6 +149,7 @@ func TestC06Held(t *testing.T) {
 				Arg:      rapid.IntRange(0, 200).Draw(t, "arg"),
 				Exit:     rapid.SampledFrom(exits).Draw(t, "exit"),
 				ExitAt:   rapid.IntRange(1, 12).Draw(t, "exitat"),
+				Writer:   rapid.SampledFrom([]string{"", "", "", "open-txn", "hot-journal"}).Draw(t, "writer"),
 			}
 			n := rapid.IntRange(0, 4).Draw(t, "nsides")
 			for i := 0; i < n; i++ {
@@ -213,14 +218,25 @@ func run(r *vt.Run, t vt.TB, s spec) {
 		violated = true
 		vsig, vmsg = sig, fmt.Sprintf(format, args...)
 	}
+	// problems of the machinery noticed while the operation runs are reported
+	// after it has returned (the hooks run inside the code under test)
+	harnessMsg := ""
+	harness := func(format string, args ...interface{}) {
+		if harnessMsg == "" {
+			harnessMsg = fmt.Sprintf(format, args...)
+		}
+	}
 	checkHeld := func(where string) {
 		st, err := probe.Probe(path)
 		if err != nil {
-			r.Harness(t, "probe: %v", err)
+			harness("probe: %v", err)
 		}
 		ok := st.Shared.Type == "read" && (st.Shared.Pid == mypid || (peerHolding && st.Shared.Pid == peer.pid))
 		if peerHolding && st.Shared.Pid == peer.pid {
 			return // F_GETLK reports one holder only; cannot tell about ours
+		}
+		if s.Writer == "open-txn" && st.Shared.Type == "read" && st.Shared.Pid == env.O.Pid {
+			return // the writer's open transaction holds SHARED as well: same limitation
 		}
 		if !ok {
 			violation("lock-not-held:"+strings.SplitN(where, " ", 2)[0], "%s inside %s(%s exit): the shared range is not read-locked by this process (%s)", where, s.Op, s.Exit, st)
@@ -231,14 +247,14 @@ func run(r *vt.Run, t vt.TB, s spec) {
 			if oracle.IsBusy(err) {
 				return
 			}
-			r.Harness(t, "begin immediate: %v", err)
+			harness("begin immediate: %v", err)
 		}
 		if err := env.O.Exec("w", "INSERT INTO t (b, c) VALUES (99, 'by the writer')"); err != nil {
-			r.Harness(t, "insert: %v", err)
+			harness("insert: %v", err)
 		}
 		err := env.O.Exec("w", "COMMIT")
 		if err != nil && !oracle.IsBusy(err) {
-			r.Harness(t, "commit: %v", err)
+			harness("commit: %v", err)
 		}
 		if err != nil {
 			env.O.Exec("w", "ROLLBACK")
@@ -261,21 +277,21 @@ func run(r *vt.Run, t vt.TB, s spec) {
 		case "other-file-open-read-close":
 			h, err := sqlittle.Open(other)
 			if err != nil {
-				r.Harness(t, "open other: %v", err)
+				harness("open other: %v", err)
 			}
 			h.Select("t", func(sqlittle.Row) {}, "a")
 			h.Close()
 		case "peer-read":
 			if !peerHolding {
-				if pr, err := peer.call("read", path); err != nil || pr.Err != "" {
-					r.Harness(t, "peer read: %v %s", err, pr.Err)
+				if pr, err := peer.call("read", path); err != nil || (pr.Err != "" && s.Writer != "hot-journal") {
+					harness("peer read: %v %s", err, pr.Err)
 				}
 			}
 		case "peer-hold":
 			if !peerHolding {
 				pr, err := peer.call("hold", path)
 				if err != nil {
-					r.Harness(t, "peer hold: %v", err)
+					harness("peer hold: %v", err)
 				}
 				peerHolding = pr.Held && pr.Err == ""
 			}
@@ -338,6 +354,41 @@ func run(r *vt.Run, t vt.TB, s spec) {
 		case "page":
 			atEvent("page")
 		}
+	}
+
+	// ---- what a writer left behind before the call
+	switch s.Writer {
+	case "open-txn", "hot-journal":
+		if err := env.O.Open("w2", path); err != nil {
+			r.Harness(t, "open w2: %v", err)
+		}
+		defer env.O.Close("w2")
+		res, err := env.O.Script("w2", []oracle.Stmt{{SQL: "BEGIN IMMEDIATE"}, {SQL: "INSERT INTO t (b, c) VALUES (77, 'uncommitted')"}}, true)
+		sqdb.MustOK(r, t, "open transaction", res, err, 2)
+		if _, err := os.Stat(path + "-journal"); err != nil {
+			r.Harness(t, "the open transaction has no journal on disk: %v", err)
+		}
+		if s.Writer == "hot-journal" {
+			// keep the journal of the transaction, as if the writer had died
+			b, err := os.ReadFile(path + "-journal")
+			if err != nil {
+				r.Harness(t, "read journal: %v", err)
+			}
+			if err := env.O.Exec("w2", "ROLLBACK"); err != nil {
+				r.Harness(t, "rollback: %v", err)
+			}
+			// SQLite writes the magic and the record count into the header only
+			// when it syncs the journal; do what that sync would have done
+			if len(b) < 512 {
+				r.Harness(t, "journal of the open transaction has only %d bytes", len(b))
+			}
+			copy(b[0:8], []byte{0xd9, 0xd5, 0x05, 0xf9, 0x20, 0xa1, 0x63, 0xd7})
+			b[8], b[9], b[10], b[11] = 0, 0, 0, 1
+			if err := os.WriteFile(path+"-journal", b, 0o644); err != nil {
+				r.Harness(t, "write journal: %v", err)
+			}
+		}
+		classes["writer:"+s.Writer] = true
 	}
 
 	// ---- the operation
@@ -437,6 +488,14 @@ func run(r *vt.Run, t vt.TB, s spec) {
 		peer.call("release", "")
 		peerHolding = false
 	}
+	if s.Writer == "open-txn" {
+		if err := env.O.Exec("w2", "ROLLBACK"); err != nil {
+			r.Harness(t, "rollback of the open transaction: %v", err)
+		}
+	}
+	if s.Writer == "hot-journal" && opErr == nil && pan == nil && s.Exit == "normal" && lockLost == "" {
+		violation("read-with-hot-journal", "%s returned without error although the journal of a crashed transaction is present", s.Op)
+	}
 	lockLost = ""
 	// I4': writers can proceed
 	commitAttempt(false, fmt.Sprintf("after %s(%s exit)", s.Op, s.Exit))
@@ -445,6 +504,9 @@ func run(r *vt.Run, t vt.TB, s spec) {
 	}
 	d.Close()
 
+	if harnessMsg != "" {
+		r.Harness(t, "%s", harnessMsg)
+	}
 	if violated {
 		if r.Violation(t, s, vsig, "%s", vmsg) {
 			return
